@@ -43,6 +43,7 @@ def parseBlocks (s : String) : Option Table :=
 def parseOp (t : Table) (s : String) : Option Op :=
   if s == "f" then some .flushReq
   else if s == "i" then some .flushIfNeeded
+  else if s == "p" then some .flushPeriodic
   else if s.startsWith "d" then do
     let id ← (s.drop 1).toString.toNat?
     if id == 0 then none else
@@ -141,7 +142,15 @@ def reopenStr (cfg : Cfg) (img : Image A) (acked : List Chain) (ops : List Op) (
     let missing := (acked.filter (fun c => c ∉ keys rn.index)).length
     let chain := natsStr ((suffixes rn.tip).reverse.map cid)
     let after := runOps cfg rn (ops.filter isDeliver)
-    s!"r=ok,{cid rn.tip},{chain},{natsStr rn.utxo.1},{missing} fin={cid specTip};{cid after.tip};{natsStr after.utxo.1}"
+    -- secondary read APIs on the reopened node: MainChainHasBlock over all known blocks,
+    -- BlockByHash/BlockHeightByHash and FetchSpendJournal along the main chain
+    let mc := natsStr (sortNat ((suffixes rn.tip).map cid))
+    let onDisk := (suffixes rn.tip).filter (fun c => c ∈ rn.img.stored)
+    let bb := onDisk.length
+    let sj := (onDisk.filter (fun c => match c with
+      | [] => false
+      | b :: _ => b.spends.isEmpty || c ∈ rn.img.journal)).length
+    s!"r=ok,{cid rn.tip},{chain},{natsStr rn.utxo.1},{missing} mc={mc} bb={bb} sj={sj} fin={cid specTip};{cid after.tip};{natsStr after.utxo.1}"
 
 def resList (recs : List OpRec) : String := ".".intercalate (recs.map (fun r => resStr r.res))
 
@@ -153,7 +162,7 @@ def handleImg (cfg cfg2 : Cfg) (base : Image A) (ops : List Op) (k : Nat) : Stri
     let n := fin.log.length
     if k > n then s!"n={n} out-of-range" else
     let img := replay base (fin.log.take k)
-    s!"n={n} res={resList recs} {persStr img} w={windowStr fin.log recs k} {reopenStr cfg2 img (ackedAt recs k) ops fin.tip}"
+    s!"n={n} res={resList recs} sv=0 {persStr img} w={windowStr fin.log recs k} {reopenStr cfg2 img (ackedAt recs k) ops fin.tip}"
 
 def handleImg2 (cfg cfg2 cfg3 : Cfg) (base : Image A) (ops : List Op) (k j : Nat) : String :=
   match recover cfg base with
@@ -213,6 +222,12 @@ def handle : List String → String
     match setup cache prune blocks ops, k.toNat? with
     | some ((cfg, cfg2, _), base, os), some k => if k == 0 then "malformed" else handleImg cfg cfg2 base os k
     | _, _ => "malformed"
+  | ["par", cache, prune, blocks, ops, ks] =>
+    match setup cache prune blocks ops, (ks.splitOn ".").mapM (·.toNat?) with
+    | some ((cfg, cfg2, _), base, os), some ks =>
+      if ks.any (· == 0) || ks.length < 2 || ks.length > 32 then "malformed"
+      else " | ".intercalate (ks.map (fun k => handleImg cfg cfg2 base os k))
+    | _, _ => "malformed"
   | ["img2", cache, prune, blocks, ops, k, j] =>
     match setup cache prune blocks ops, k.toNat?, j.toNat? with
     | some ((cfg, cfg2, cfg3), base, os), some k, some j =>
@@ -221,6 +236,7 @@ def handle : List String → String
   | "img" :: _ => "malformed"
   | "torn" :: _ => "malformed"
   | "img2" :: _ => "malformed"
+  | "par" :: _ => "malformed"
   | _ => "bad-op"
 
 end BV.C04.Driver
